@@ -78,7 +78,7 @@ def gen_value(rng, uid, kinds):
         return k, f't{uid}'
     if k == 'qtext':
         return k, rng.choice(["it's {}", 'say "{}"', 'a\\{}', 'line\n{}', ' {} ', '{{{}}}', '%s {}', "'{}", '# {}', '\U0001F680 {}', '{} \U0001D518\U00020000',
-                              '\u00e9\u0301 {}', '\ufeff{}', '{}\u2028x', 'tab\t{}', '\x7f{}', '{{titles}} {}', '{{sheets_size}}{}', '{{functions}} {}']).format(uid)
+                              'see note({})', 'f(x) {}', 'tel(495) {}', 'a(b(c{}))', 'eval({})', '\u00e9\u0301 {}', '\ufeff{}', '{}\u2028x', 'tab\t{}', '\x7f{}', '{{titles}} {}', '{{sheets_size}}{}', '{{functions}} {}']).format(uid)
     if k == 'numtext':
         return k, f'00{uid}'
     if k == 'errtext':
